@@ -80,6 +80,33 @@ def exact_cuts(case, S, rng, maxcuts=4):
         I.update({c: f"s_{c}" for c in cut})
         label = "root-only" if not cut else ("interior-only" if not [r for r in roots if r in I] else "mixed")
         yield label, I, cut
+    # ONE member of a tuple output is supplied while its sibling is still needed: the producer runs (for the sibling), the
+    # supplied member must nevertheless be the value its consumers see
+    byn = {f["name"]: f for f in case["funcs"]}
+    for f in case["funcs"]:
+        if len(f["outs"]) < 2 or f["name"] not in daggen.needed_funcs(case, S):
+            continue
+        for c in f["outs"]:
+            sibs = [o for o in f["outs"] if o != c]
+            if c in S:
+                continue
+            cut = {c}
+            need_f = daggen.needed_funcs(case, S, cut)
+            consumed = {p for n in need_f for p in byn[n]["params"] if p not in byn[n]["bound"]}
+            # (the sibling is needed by a consumer, not requested itself: subpipeline() treats a producer one of whose outputs is
+            # supplied as an input node and cannot also deliver its other output as a requested one)
+            if f["name"] not in need_f or c not in consumed or not any(s_ in consumed for s_ in sibs) or any(s_ in S for s_ in sibs):
+                continue
+            roots = set()
+            for o in S:
+                roots |= daggen.needed_roots(case, o, cut)
+            key = (tuple(sorted(cut)), tuple(sorted(roots)))
+            if key in seen:
+                continue
+            seen.add(key)
+            I = {r: f"v_{r}" for r in roots if not (r in case["defaults"] and rng.random() < 0.4)}
+            I[c] = f"s_{c}"
+            yield "member-of-tuple", I, cut
 
 
 def run_dag_case(v, case, rng, scratch, keys):
@@ -144,6 +171,10 @@ def run_dag_case(v, case, rng, scratch, keys):
                     v.count("diag_subpipeline_keeps_other_functions")  # diagnostic: only *invocations* are demanded (call log)
             # (b)/(c) map with output_names / auto_subpipeline
             for how in ["output_names", "auto_subpipeline"]:
+                if label == "member-of-tuple":
+                    # map stores one array per output name: a supplied member whose producer still runs (for the sibling) would
+                    # have two values - map refuses such inputs by design; this cut is judged through subpipeline()/calls only
+                    continue
                 probes.log_clear(log)
                 kw = {"output_names": set(S)}
                 if how == "auto_subpipeline":
